@@ -420,7 +420,9 @@ def r7(ctx, rep):
     order = tables.enum_variants(cx)
     rep.check(order == ["Plain", "NonGroup", "Windowed", "Aggregation"], "complexity-order", f"derive(PartialOrd) order of Complexity must be Plain < NonGroup < Windowed < Aggregation; found {order}", file=cx["file"], line=cx["l"])
     cm = syn.fn("anchor::can_materialize", crate="prqlc")
-    rep.check("let can_materialize = (complexity <= required)" in show_stmts(cm["body"], maxdepth=8), "can_materialize", "a compute may be materialised where its complexity does not exceed what the requirements allow", file=cm["file"], line=cm["l"], fn=cm["path"])
+    import C07
+    okc, why = C07.can_materialize_shape(syn)
+    rep.check(okc, "can_materialize", f"a compute may be materialised where its complexity does not exceed what the requirements allow ({why})", file=cm["file"], line=cm["l"], fn=cm["path"])
 
 
 def r8(ctx, rep):
